@@ -72,4 +72,39 @@ let () =
         else if files <> "files=1" then "FAIL:stray-files:" ^ files
         else "ok"
       | _ -> "FAIL:" ^ (if String.length obs > 40 then String.sub obs 0 40 else obs) in
-    (model, spec))
+    (model, spec));
+  (* op C08.multi  input "<procs> | hex,hex,..."  observed "<c1>/<c2> | hex,.. | hex,.."
+     model: every file independently: format_cmd, and format_cmd of its result (the second run)
+     spec : after run 2 = after run 1 for every file (idempotence of the command); an unparseable file is untouched *)
+  register "C08.multi" (fun inp obs ->
+    match Str.bounded_split_delim (Str.regexp_string " | ") inp 2 with
+    | [_; hs] ->
+      let ins = String.split_on_char ',' hs in
+      let once (h : string) : string * bool =
+        match K.SynPrintM.format_cmd letter digit (text_of_hex h) with
+        | K.SynPrintM.Rewritten n -> (hex_of_text n, true)
+        | K.SynPrintM.Untouched -> (h, false)
+        | _ -> ("PANIC", false) in
+      let r1 = List.map once ins in
+      let all_ok = List.for_all snd r1 in
+      let r2 = List.map (fun (h, _) -> fst (once h)) r1 in
+      let cls = if all_ok then "OK" else "ERR" in
+      let model = Printf.sprintf "%s/%s | %s | %s" cls cls (String.concat "," (List.map fst r1)) (String.concat "," r2) in
+      let spec =
+        (match Str.split_delim (Str.regexp_string " | ") obs with
+         | [c; a1; a2] ->
+           let l1 = String.split_on_char ',' a1 and l2 = String.split_on_char ',' a2 in
+           if List.length l1 <> List.length ins || List.length l2 <> List.length ins then "FAIL:file count"
+           else if not (List.for_all (fun x -> x = "OK" || x = "ERR") (String.split_on_char '/' c)) then "FAIL:" ^ c
+           else begin
+             let bad = ref [] in
+             List.iteri (fun i h ->
+               let x1 = List.nth l1 i and x2 = List.nth l2 i in
+               let (_, parses) = List.nth r1 i in
+               if not parses && (x1 <> h || x2 <> h) then bad := Printf.sprintf "j%02d:unparseable-file-was-modified" i :: !bad
+               else if x1 <> x2 then bad := Printf.sprintf "j%02d:second-format-changed-the-file" i :: !bad) ins;
+             if !bad = [] then "ok" else "FAIL:" ^ String.concat "," (List.rev !bad)
+           end
+         | _ -> "FAIL:unreadable") in
+      (model, spec)
+    | _ -> failwith "C08.multi input")
